@@ -99,7 +99,8 @@ def body_mix(cfg, a, j, lam, i):
         n = len(ds)
         fake = FakeNp([a, j, lam])
         with patched(MW, np=fake):
-            w = KDMixWrapper(ds, mixup_p=p, mixup_alpha=1.0, mixup_unify_shapes_mode=unify, seed=7)
+            seed = 0 if p == 1.0 else 7  # seed 0 is a legitimate seed
+            w = KDMixWrapper(ds, mixup_p=p, mixup_alpha=1.0, mixup_unify_shapes_mode=unify, seed=seed)
             m = ModeWrapper(w, mode=mode)
             i = realize_all(i)
             r1 = m[i]
@@ -136,7 +137,7 @@ def body_mix(cfg, a, j, lam, i):
             return fail("label is not mixed with the same partner and weight as the data")
         if float(c.min()) < -1e-6 or abs(float(c.sum()) - 1.0) > 1e-5:
             return fail("label vector not non-negative / does not sum to one")
-    if any(s != 7 + i for s in fake.seeds):
+    if any(s is None or s != seed + i for s in fake.seeds):
         return fail("per-sample generator not seeded with seed + index")
     return True
 
